@@ -97,7 +97,8 @@ def extra(local, sc, cfg, sr, hev, wire, out):
 
 def run(tier, seed, model_ok=True):
     res = C.Result()
-    res.rule = ("seeded scenarios (message DAG with handler-side asyncs and local_progress, masked sections, callbacks) x layout x routing x capacity x "
+    res.rule = ("[a quarter of the generated scenarios also run barriers of a SECOND ygm::comm living in the same process between the epochs; its events are removed from the judged history] " +
+                "seeded scenarios (message DAG with handler-side asyncs and local_progress, masked sections, callbacks) x layout x routing x capacity x "
                 "MPI config x scheduling policy; a case is non-trivial when handlers ran; distinct = (config, scenario shape)")
     res.assumptions = ["schedules sampled by seeded policies", "RAII, non-nested masks; no barrier under a mask"]
     binary, err = C.build_harness("traffic")
